@@ -775,6 +775,14 @@ func DynCall(fn *Term, args []*Term, pos token.Pos) *Term {
 			return t
 		}
 	}
+	// a declared function used as a value (a field of a literal row, an argument) and called: the static call
+	if fn.Op == OFunc {
+		if f, ok := fn.Obj.(*types.Func); ok && f.Type().(*types.Signature).Recv() == nil {
+			t := Call(f, args...)
+			t.Pos = pos
+			return t
+		}
+	}
 	return &Term{Op: "dyncall", Args: append([]*Term{fn}, args...), Pos: pos}
 }
 
